@@ -338,7 +338,8 @@ if __name__ == '__main__':
     import tempfile
     # one scratch directory per invocation; batch workers create their per-process disks underneath it and the
     # parent removes it whatever happens to them
-    _scratch = tempfile.mkdtemp(prefix='simverif-')
+    _shm = '/dev/shm' if os.path.isdir('/dev/shm') and os.access('/dev/shm', os.W_OK) else None
+    _scratch = tempfile.mkdtemp(prefix='simverif-', dir=_shm)      # RAM-backed when available
     os.environ['SIMVERIF_SCRATCH'] = _scratch
     try:
         rc = main(sys.argv[1:])
